@@ -1,41 +1,14 @@
-/- Driver for C40: the Core model's line protocol (see MvModel/CoreDrv.lean for the requests) with the
-   bulk-ingestion operations as `/verif/fixes/C40.diff` repairs them (MvModel/Bulk.lean):
-     skip                → Mem.commitSkipIndexesR
-     finalize ft=<n>     → Mem.finalizeIndexesR
+/- Driver for C40: the Core model's line protocol (see MvModel/CoreDrv.lean for the requests; since
+   repair 7cd4b84 Core's `skip` / `finalize` are the repaired functions) plus two read-only requests:
      lexn                → number of documents the lexical engine holds (`lexDocs.length`)
-     lex                 → the engine's frame ids, sorted (`-` when empty)
-     obs / head          → `Core.obs` / `Core.obsHead` with the sketch ids sorted (the harness prints the
-                           real sketch track sorted; after the repaired `finalize_indexes` the track's
-                           insertion order need not be ascending)
-     reopen / crash      → `drvStep`, then the footer catches up with the trace input when the WAL replay
-                           re-persisted a non-empty sketch track (recover_wal: `persist_sketch_track`
-                           moves `footer_offset`; idempotent once Core.lean's `recoverWal` does it itself)
-   every other request goes to `Mv.Core.drvStep` unchanged. -/
+     lex                 → the engine's frame ids, sorted (`-` when empty) -/
 import MvModel.CoreDrv
-import MvModel.Bulk
 open Mv.Core
 
 def c40Step (m : Mem) (ws : List String) : Mem × String :=
   match ws with
-  | "skip" :: rest =>
-    let kv := kvs rest
-    let r := m.commitSkipIndexesR
-    (r.1.setWalSize (getN kv "ws" r.1.walSize), showOut r.2)
-  | "finalize" :: rest =>
-    let kv := kvs rest
-    let r := m.finalizeIndexesR (getN kv "ft")
-    (r.1.setWalSize (getN kv "ws" r.1.walSize), showOut r.2)
   | ["lexn"] => (m, toString m.lexDocs.length)
   | ["lex"] => (m, showNats (sortBy natLe m.lexDocs))
-  | ["obs"] => (m, obs { m with sketch := sortBy natLe m.sketch })
-  | ["head"] => (m, obsHead { m with sketch := sortBy natLe m.sketch })
-  | "reopen" :: rest =>
-    let r := drvStep m ws
-    let replayed := !(m.dropHandle (getN (kvs rest) "ftd")).pending.isEmpty
-    (if replayed && !r.1.sketch.isEmpty then { r.1 with footer := max r.1.footer (getN (kvs rest) "fto") } else r.1, r.2)
-  | "crash" :: rest =>
-    let r := drvStep m ws
-    (if !m.pending.isEmpty && !r.1.sketch.isEmpty then { r.1 with footer := max r.1.footer (getN (kvs rest) "ft") } else r.1, r.2)
   | _ => drvStep m ws
 
 def main : IO Unit := Mv.runDriver Mem.create c40Step
